@@ -835,7 +835,7 @@ func (g *gen) generate() {
 	for _, a := range pa {
 		for _, e := range pe {
 			for _, m := range pm {
-				if !th && g.rng.Intn(4) != 0 {
+				if !th && g.rng.Intn(6) != 0 {
 					continue
 				}
 				if m.Sign() == 0 && a.BitLen() > 1 && (e.BitLen() > 7 || int64(a.BitLen())*e.Int64() > 2048) {
@@ -907,7 +907,7 @@ func (g *gen) generate() {
 		g.textCases(a, 1)
 	}
 	// three-argument pow on random operands; the exponent's size is what costs in TLC (about 2.5 ms per bit)
-	np := g.env.Pick(150, 1500)
+	np := g.env.Pick(80, 1500)
 	for i := 0; i < np; i++ {
 		a, m := g.random(), g.random()
 		var e *big.Int
@@ -1064,7 +1064,7 @@ func main() {
 				cfg = "laws_thorough.cfg"
 			}
 			lawsDone = make(chan *common.TLCResult, 1)
-			lw := env.Workers / 2
+			lw := env.Workers / 4 // the design check gets a quarter of the workers, the trace validators share the rest
 			if lw < 1 {
 				lw = 1
 			}
@@ -1236,7 +1236,7 @@ func main() {
 	var wgT sync.WaitGroup
 	workers := env.Workers / par
 	if lawsDone != nil {
-		workers = env.Workers / (2 * par)
+		workers = (env.Workers - env.Workers/4) / par
 	}
 	if workers < 1 {
 		workers = 1
